@@ -98,6 +98,7 @@ pub fn base_cfg(prop: &'static str, k: u32, prios: &[i32], alphabet: u32) -> Cfg
         threads: threads(),
         record_costs: false,
         merge_check: std::env::var_os("PQMC_MERGE").is_some(),
+        large: false,
     }
 }
 
@@ -190,6 +191,68 @@ pub fn f_struct(n: usize) -> Vec<Root> {
     v.sort();
     v.dedup();
     v.iter().map(|p| seed_root(p)).collect()
+}
+
+/// Seeds for LARGE queues (tens to thousands of elements): a fixed structured family. Values are
+/// multiples of 10 in 10..=10n, so the relative priorities of `rel_large` fall below, between and above.
+pub fn f_large(n: usize) -> Vec<Root> {
+    let lcg = |seed: u64, modulo: u64| -> Vec<i32> {
+        let mut x = seed;
+        (0..n)
+            .map(|_| {
+                x = x.wrapping_mul(6364136223846793005).wrapping_add(1442695040888963407);
+                (10 * (1 + (x >> 33) % modulo)) as i32
+            })
+            .collect()
+    };
+    let level = |i: usize| (usize::BITS - (i + 1).leading_zeros() - 1) as usize;
+    let mut v: Vec<Vec<i32>> = vec![
+        (0..n).map(|i| 10 * (i as i32 + 1)).collect(),
+        (0..n).map(|i| 10 * (n - i) as i32).collect(),
+        vec![20; n],
+        (0..n).map(|i| if i % 2 == 0 { 10 } else { 30 }).collect(),
+        (0..n).map(|i| if i % 2 == 0 { 30 } else { 10 }).collect(),
+        (0..n).map(|i| 10 * (i.min(n - 1 - i) as i32 + 1)).collect(),
+        (0..n).map(|i| 10 * (n - i.min(n - 1 - i)) as i32).collect(),
+        lcg(0x2545F4914F6CDD1D, n as u64),
+        lcg(0x9E3779B97F4A7C15, n as u64),
+        lcg(0x2545F4914F6CDD1D, 3),
+        lcg(0xD1B54A32D192ED03, 2),
+        (0..n).map(|i| if level(i) % 2 == 0 { 10 } else { 30 }).collect(),
+        (0..n).map(|i| if level(i) % 2 == 0 { 30 } else { 10 }).collect(),
+        (0..n).map(|i| 10 * (1 + level(i) as i32)).collect(),
+        (0..n).map(|i| 10 * (1 + (i % 7) as i32)).collect(),
+    ];
+    for j in [0, n / 2, n - 1] {
+        v.push((0..n).map(|i| if i == j { 30 } else { 10 }).collect());
+        v.push((0..n).map(|i| if i == j { 10 } else { 30 }).collect());
+    }
+    v.sort();
+    v.dedup();
+    v.iter().map(|p| seed_root(p)).collect()
+}
+
+pub fn rel_large(n: usize) -> Vec<i32> {
+    let n = n as i32;
+    let mut v = vec![5, 10, 15, 20, 25, 30, 35, 10 * ((n + 1) / 2), 10 * ((n + 1) / 2) + 5, 10 * n, 10 * n + 5];
+    v.sort();
+    v.dedup();
+    v
+}
+
+/// E2-large: every seed of `f_large(n)` (both kinds unless restricted), every operation of the
+/// large-queue alphabet (addressed at structural target positions), depth 1, lock-step oracle.
+pub fn run_large<H: HB>(out: &mut Outcome, prop: &'static str, kinds: &[bool], alphabet: u32, sizes: &[usize], deep_upto: usize, mk_probes: &dyn Fn(&mut Explorer<H>)) {
+    for &n in sizes {
+        let mut c = seeds_cfg(prop, n, &rel_large(n), alphabet);
+        c.kinds = kinds.to_vec();
+        c.large = true;
+        c.deep = n <= deep_upto;
+        run_seeds::<H>(out, &format!("E2-large F_large({n}) depth 1, operations addressed at structural target positions"), &c, f_large(n), 1, mk_probes);
+        if !out.violations.is_empty() {
+            return;
+        }
+    }
 }
 
 pub fn seeds_cfg(prop: &'static str, n: usize, prios: &[i32], alphabet: u32) -> Cfg {
@@ -370,6 +433,12 @@ pub fn run_history_property<H: HB>(prop: &'static str, tier: Tier) -> Outcome {
             return out;
         }
     }
+    // large queues (depths the families above do not reach)
+    let large_sizes: Vec<usize> = if q { vec![40, 64, 65, 127, 128] } else { vec![40, 63, 64, 65, 100, 127, 128, 129, 255, 256, 257, 511, 512, 513, 1000, 1023, 1024, 1025, 2047, 2048, 2049] };
+    run_large::<H>(&mut out, prop, &kinds, seed_alpha, &large_sizes, 129, &no_probes);
+    if !out.violations.is_empty() {
+        return out;
+    }
     if !q {
         for n in [5, 6, 7, 8] {
             let mut c = seeds_cfg(prop, n, &REL_TERN, seed_alpha);
@@ -475,6 +544,42 @@ pub fn run_probe_property<H: HB>(prop: &'static str, tier: Tier) -> Outcome {
             }
         }
     }
+    // large queues: programs (structured family) from every seed of F_large, and (C06, C16) from
+    // every state one operation away
+    {
+        let sizes: Vec<usize> = match (prop, q) {
+            ("C16", true) => vec![],
+            ("C16", false) => vec![40, 65, 128, 257],
+            ("C09", true) => vec![40, 65],
+            ("C09", false) => vec![40, 64, 65, 128],
+            (_, true) => vec![40, 65, 128],
+            (_, false) => vec![40, 64, 65, 100, 127, 128, 129, 256, 257],
+        };
+        for n in sizes {
+            let depth = if matches!(prop, "C06" | "C16") && n <= if q { 40 } else { 65 } { 1 } else { 0 };
+            let mut c = seeds_cfg(prop, n, &rel_large(n), A_REACH | match prop {
+                "C16" => A_CLEAR_DRAIN | A_DRAIN_FORGET,
+                "C06" if !q => A_RETAIN | A_ITER_MUT | A_EXTEND | A_APPEND,
+                _ => 0,
+            });
+            c.large = true;
+            c.deep = false;
+            let pu: Vec<u32> = vec![0, n as u32 / 2, n as u32 - 1];
+            let dname = match prop { "C06" => "C06d", "C13" => "C13m", "C09" => "C09m", x => x };
+            // the full program families are cubic in the queue length: beyond 65 elements (quick: 40
+            // for iter_mut) the reduced families run
+            let reduced = depth > 0 || (prop == "C09" && (q || n > 65));
+            let mk = |ex: &mut Explorer<H>| {
+                for p in crate::probes::all_probes::<H>(if reduced { dname } else { prop }, &pu) {
+                    ex.probes.push(p);
+                }
+            };
+            run_seeds::<H>(&mut out, &format!("E2-large F_large({n}) depth {depth}: programs (structured family) from every state"), &c, f_large(n), depth, &mk);
+            if !out.violations.is_empty() {
+                return out;
+            }
+        }
+    }
     // programs from deep trees too (depth 0: the seeds themselves)
     let sizes: Vec<usize> = match (prop, q) {
         ("C16", _) => vec![7, 8],
@@ -537,7 +642,7 @@ pub fn pair_seqs(keys: &[u32], prios: &[i32], max_len: usize) -> Vec<Vec<Pair>> 
 pub fn long_seqs(n_present: u32, prios: &[i32]) -> Vec<Vec<Pair>> {
     let np = prios.len();
     let mut out = vec![];
-    for len in [17usize, 18, 24] {
+    for len in [17usize, 18, 24].into_iter().chain((n_present > 40).then_some(n_present as usize + 5)) {
         // all new items, ascending / descending / constant priorities
         out.push((0..len).map(|i| (n_present + i as u32, 100, prios[i % np])).collect());
         out.push((0..len).map(|i| (n_present + i as u32, 100, prios[(len - i) % np])).collect());
@@ -655,13 +760,14 @@ pub fn run_c07<H: HB>(tier: Tier) -> Outcome {
         }
     }
     // deep receivers: both sides of the push-versus-rebuild threshold
-    let sizes: Vec<usize> = if q { vec![8, 9, 16, 17, 32, 33] } else { vec![7, 8, 9, 10, 15, 16, 17, 31, 32, 33, 64, 65] };
+    let sizes: Vec<usize> = if q { vec![8, 9, 16, 17, 32, 33, 64, 65, 128] } else { vec![7, 8, 9, 10, 15, 16, 17, 31, 32, 33, 64, 65, 127, 128, 129, 256, 257, 512, 513, 1024, 1025] };
     for n in sizes {
         let t0 = Instant::now();
-        let mut cfg = seeds_cfg(prop, n, &REL_TERN, A_APPEND | A_CONVERT);
+        let mut cfg = seeds_cfg(prop, n, &if n > 40 { rel_large(n) } else { REL_TERN.to_vec() }, A_APPEND | A_CONVERT | if n > 40 { A_EXTEND } else { 0 });
         cfg.append_max = if q { 2 } else { 3 };
         cfg.deep = n <= 9;
-        let seeds = if n <= 9 && !q || n <= 7 { f_bin(n) } else if n > 40 { f_struct(n) } else { f_seg(n) };
+        cfg.large = n > 40;
+        let seeds = if n <= 9 && !q || n <= 7 { f_bin(n) } else if n > 40 && q { f_large(n) } else if n > 40 { let mut v = f_large(n); if n < 100 { v.extend(f_struct(n)); } v } else { f_seg(n) };
         let mut ex = Explorer::<H>::new(&cfg);
         ex.collect = Some(Default::default());
         let mut roots = vec![];
@@ -845,6 +951,13 @@ pub fn run_c08<H: HB>(tier: Tier) -> Outcome {
             return out;
         }
     }
+    {
+        let sizes: Vec<usize> = if q { vec![40, 64, 65, 128] } else { vec![40, 63, 64, 65, 100, 127, 128, 129, 255, 256, 257, 512, 513, 1024, 1025] };
+        run_large::<H>(&mut out, prop, &[false, true], alpha & !A_REACH | A_POP, &sizes, 129, &no_probes);
+        if !out.violations.is_empty() {
+            return out;
+        }
+    }
     // LAST layer (a known finding lives here, so everything else has been explored before): the
     // references iter_mut yields outlive the iterator. One explorer per kind, so that both kinds
     // are looked at even though each stops at its first violation.
@@ -952,13 +1065,29 @@ pub fn run_c14<H: HB>(tier: Tier) -> Outcome {
     if !out.violations.is_empty() {
         return out;
     }
+    // clone independence on large queues: seeds, and every state one operation away
+    for n in if q { vec![40usize, 65, 128] } else { vec![40, 64, 65, 127, 128, 129, 256, 257, 513, 1024] } {
+        let mut c = seeds_cfg(prop, n, &rel_large(n), A_REACH | A_CLONE | A_RETAIN);
+        c.large = true;
+        c.deep = false;
+        let pu: Vec<u32> = vec![0, n as u32 / 2, n as u32 - 1];
+        let mk = |ex: &mut Explorer<H>| {
+            for p in crate::probes::all_probes::<H>(prop, &pu) {
+                ex.probes.push(p);
+            }
+        };
+        run_seeds::<H>(&mut out, &format!("E2-large F_large({n}) depth 0: clone independence from every seed; clone/clone_from as transitions"), &c, f_large(n), if n <= 65 { 1 } else { 0 }, &mk);
+        if !out.violations.is_empty() {
+            return out;
+        }
+    }
     // larger queues built independently: different histories, different hasher instances
     // (every std RandomState instance has its own keys), different hasher types
     let t0 = Instant::now();
     let mut cases = 0u64;
     let mut viol = vec![];
-    'outer: for n in if q { vec![15usize, 16, 17, 33] } else { vec![15, 16, 17, 18, 31, 32, 33, 64, 65] } {
-        for seed in f_struct(n) {
+    'outer: for n in if q { vec![15usize, 16, 17, 33, 64, 65, 129, 257] } else { vec![15, 16, 17, 18, 31, 32, 33, 64, 65, 127, 128, 129, 255, 256, 257, 512, 513, 1024, 1025, 2049] } {
+        for seed in if n > 40 { f_large(n) } else { f_struct(n) } {
             let Root::FromVec(pairs) = &seed else { continue };
             for d in [false, true] {
                 cases += 1;
@@ -970,7 +1099,7 @@ pub fn run_c14<H: HB>(tier: Tier) -> Outcome {
             }
         }
     }
-    absorb_post(&mut out, "== on queues of 15..33 (65) elements built independently (From<Vec> / pushes in reverse order / FromIterator with another hasher type; separate RandomState instances), then one priority changed / one item removed", cases, viol, t0, json!({}));
+    absorb_post(&mut out, "== on queues of 15..257 (2049) elements built independently (From<Vec> / pushes in reverse order / FromIterator with another hasher type; separate RandomState instances), then one priority changed / one item removed", cases, viol, t0, json!({}));
     out
 }
 
@@ -1074,6 +1203,27 @@ pub fn run_c17<H: HB>(tier: Tier) -> Outcome {
             }
         });
         absorb_post(&mut out, "extend twin: receivers of 8 (16, 33) elements with ties x capacity call x large extends x hints: contents and extraction order (ties included) as on the untouched queue", cases, viol, t0, json!({"receivers": seeds.len()}));
+        if !out.violations.is_empty() {
+            return out;
+        }
+    }
+    for n in if q { vec![40usize, 65, 128] } else { vec![40, 64, 65, 127, 128, 129, 256, 257, 513, 1024] } {
+        let mut c = seeds_cfg(prop, n, &rel_large(n), A_CAPACITY | A_POP | A_PUSH | A_REMOVE);
+        c.large = true;
+        c.deep = n <= 129;
+        let pu: Vec<u32> = vec![0, n as u32 / 2, n as u32 - 1];
+        let _ = &pu;
+        let mk = |ex: &mut Explorer<H>| {
+            // a reduced continuation menu: two items (first and last slot), priorities below and above everything
+            ex.probes.push(Box::new(crate::probes::CapacityTwin { universe: vec![0, n as u32 - 1], prios: vec![5, 10 * n as i32 + 5], huge: false }));
+        };
+        if n <= if q { 40 } else { 129 } {
+            run_seeds::<H>(&mut out, &format!("E2-large F_large({n}) depth 0: twin continuations from every seed"), &c, f_large(n), 0, &mk);
+            if !out.violations.is_empty() {
+                return out;
+            }
+        }
+        run_seeds::<H>(&mut out, &format!("E2-large F_large({n}): capacity calls and single-element operations (depth 1)"), &c, f_large(n), 1, &no_probes);
         if !out.violations.is_empty() {
             return out;
         }
@@ -1298,6 +1448,20 @@ pub fn run_c18(tier: Tier) -> Outcome {
     one!(StdRandom, "std RandomState (run 2)");
     one!(FnvBuild, "no_std-friendly fnv via with_default_hasher / with_hasher");
     one!(CollideAll, "all-colliding (every hash = 0)");
+    // large queues under the degenerate hasher (every lookup walks one bucket) and RandomState
+    {
+        let alpha = A_CORE | A_RETAIN | A_CONVERT | A_BORROWED | A_EXTEND | A_APPEND | A_ITER_MUT | A_CLEAR_DRAIN;
+        let sizes: Vec<usize> = if q { vec![40, 65] } else { vec![40, 64, 65, 128, 129] };
+        run_large::<CollideAll>(&mut out, prop, &[false, true], alpha, &sizes, 0, &no_probes);
+        if !out.violations.is_empty() {
+            return out;
+        }
+        let sizes: Vec<usize> = if q { vec![40, 65, 128] } else { vec![40, 64, 65, 128, 129, 256, 257, 512, 1025] };
+        run_large::<StdRandom>(&mut out, prop, &[false, true], alpha, &sizes, 0, &no_probes);
+        if !out.violations.is_empty() {
+            return out;
+        }
+    }
     // deep seeds under the degenerate hasher
     for n in if q { vec![8usize] } else { vec![8, 9, 16, 17] } {
         let mut c = seeds_cfg(prop, n, &REL_BIN, A_CORE | A_RETAIN | A_CONVERT | A_BORROWED | A_EXTEND | A_APPEND | A_ITER_MUT | A_CLEAR_DRAIN);
